@@ -1245,13 +1245,11 @@ pub fn time_3(hour_value: &Value, minute_value: &Value, second_value: &Value) ->
         if (0..24).contains(hour) && (0..60).contains(minute) && (0..60).contains(second) {
           let seconds = second.trunc();
           let nanoseconds = (second.fract() * FeelNumber::nano()).trunc();
-          if let Some(feel_time) = FeelTime::new_hms_opt(
-            hour.to_u8().unwrap(),
-            minute.to_u8().unwrap(),
-            seconds.to_u8().unwrap(),
-            nanoseconds.to_u64().unwrap(),
-          ) {
-            return Value::Time(feel_time);
+          // (a value that is not a number - the result of an out-of-range decimal() - passes the range tests above)
+          if let (Some(h), Some(m), Some(s), Some(ns)) = (hour.to_u8(), minute.to_u8(), seconds.to_u8(), nanoseconds.to_u64()) {
+            if let Some(feel_time) = FeelTime::new_hms_opt(h, m, s, ns) {
+              return Value::Time(feel_time);
+            }
           }
         }
       }
@@ -1268,29 +1266,20 @@ pub fn time_4(hour_value: &Value, minute_value: &Value, second_value: &Value, du
         if (0..24).contains(hour) && (0..60).contains(minute) && (0..60).contains(second) {
           let seconds = second.trunc();
           let nanoseconds = (second.fract() * FeelNumber::nano()).trunc();
-          match duration_value {
-            Value::DaysAndTimeDuration(duration) => {
-              if let Some(feel_time) = FeelTime::new_hmso_opt(
-                hour.to_u8().unwrap(),
-                minute.to_u8().unwrap(),
-                seconds.to_u8().unwrap(),
-                nanoseconds.to_u64().unwrap(),
-                duration.as_seconds() as i32,
-              ) {
-                return Value::Time(feel_time);
+          if let (Some(h), Some(m), Some(s), Some(ns)) = (hour.to_u8(), minute.to_u8(), seconds.to_u8(), nanoseconds.to_u64()) {
+            match duration_value {
+              Value::DaysAndTimeDuration(duration) => {
+                if let Some(feel_time) = FeelTime::new_hmso_opt(h, m, s, ns, duration.as_seconds() as i32) {
+                  return Value::Time(feel_time);
+                }
               }
-            }
-            Value::Null(_) => {
-              if let Some(feel_time) = FeelTime::new_hms_opt(
-                hour.to_u8().unwrap(),
-                minute.to_u8().unwrap(),
-                seconds.to_u8().unwrap(),
-                nanoseconds.to_u64().unwrap(),
-              ) {
-                return Value::Time(feel_time);
+              Value::Null(_) => {
+                if let Some(feel_time) = FeelTime::new_hms_opt(h, m, s, ns) {
+                  return Value::Time(feel_time);
+                }
               }
+              _ => {}
             }
-            _ => {}
           }
         }
       }
